@@ -35,8 +35,31 @@ func floorToFixed(v ssa.Value) (ssa.Value, bool) {
 type eraFn struct {
 	c      *Ctx
 	f      *ssa.Function
-	mp     ssa.Value // the round reward map
-	reward ssa.Value // the reward parameter
+	mp     ssa.Value   // the round reward map
+	reward ssa.Value   // the reward parameter
+	ctx    []*ssa.Call // helper calls being looked into (innermost last)
+}
+
+// deref replaces a parameter of a helper that is being looked into by the argument of the call.
+func (e *eraFn) deref(v ssa.Value) ssa.Value {
+	for k := len(e.ctx) - 1; k >= 0; k-- {
+		p, ok := v.(*ssa.Parameter)
+		if !ok {
+			return v
+		}
+		h := e.ctx[k].Call.StaticCallee()
+		idx := -1
+		for i, hp := range h.Params {
+			if hp == p {
+				idx = i
+			}
+		}
+		if idx < 0 {
+			return v
+		}
+		v = e.ctx[k].Call.Args[idx]
+	}
+	return v
 }
 
 // accOf: the accumulator phi of the loop headed by h: a Fixed64 phi whose back edge is phi + q.
@@ -84,6 +107,17 @@ func (e *eraFn) payoutShape(v ssa.Value, depth int) (string, bool) {
 			return "0", true
 		}
 	}
+	v = e.deref(v)
+	if cl, ok := v.(*ssa.Call); ok {
+		if h := cl.Call.StaticCallee(); h != nil && h.Pkg == e.f.Pkg && len(h.Blocks) == 1 {
+			if ret, ok := h.Blocks[0].Instrs[len(h.Blocks[0].Instrs)-1].(*ssa.Return); ok && len(ret.Results) == 1 {
+				e.ctx = append(e.ctx, cl)
+				s, ok2 := e.payoutShape(ret.Results[0], depth+1)
+				e.ctx = e.ctx[:len(e.ctx)-1]
+				return s, ok2
+			}
+		}
+	}
 	if x, ok := floorToFixed(v); ok {
 		switch b := x.(type) {
 		case *ssa.BinOp:
@@ -94,10 +128,10 @@ func (e *eraFn) payoutShape(v ssa.Value, depth int) (string, bool) {
 				// votes * rewardPerVote
 				votes := func(y ssa.Value) bool {
 					cv, ok := y.(*ssa.Convert)
-					return ok && ssau.DependsOn(cv.X, func(z ssa.Value) bool { return ssau.IsFieldOf(z, "RewardData", "OwnerVotesInRound") })
+					return ok && ssau.DependsOn(e.deref(cv.X), func(z ssa.Value) bool { return ssau.IsFieldOf(z, "RewardData", "OwnerVotesInRound") })
 				}
 				rpv := func(y ssa.Value) bool {
-					return ssau.DependsOn(y, func(z ssa.Value) bool { return ssau.IsFieldOf(z, "RewardData", "TotalVotesInRound") })
+					return ssau.DependsOn(e.deref(y), func(z ssa.Value) bool { return ssau.IsFieldOf(z, "RewardData", "TotalVotesInRound") })
 				}
 				if (votes(b.X) && rpv(b.Y)) || (votes(b.Y) && rpv(b.X)) {
 					return "floor(votes * rewardPerVote)", true
